@@ -9,7 +9,7 @@
    [env_nonneg]) are defined in Codec/TotalModel.v.                                          *)
 From Coq Require Import ZArith List Ascii Bool.
 From Cspuz Require Import Lib.PyErr Codec.Comb Codec.CombWf Codec.Yajilin Codec.Puzzles
-  Codec.TotalModel Codec.TotalLeaf Codec.TotalRooms Codec.Total Codec.TotalDims Codec.TotalCodecs Gen.Codecs.
+  Codec.TotalModel Codec.TotalLeaf Codec.TotalRooms Codec.Total Codec.TotalDims Codec.TotalRedecode Codec.TotalCodecs Gen.Codecs.
 Import ListNotations.
 Local Open Scope Z_scope.
 
@@ -140,3 +140,21 @@ Theorem de_reencodable_partial_hexint : forall s k l, hexint_de s = Ok (Some (k,
     forall rest, hexint_de (t ++ rest) = Ok (Some (length t, [VInt z])).
 Proof. exact hexint_reencodable_lemma. Qed.
 Print Assumptions de_reencodable_partial_hexint.
+
+(* proved part, using C15's problem_roundtrip as a lemma: a decoded grid whose cell combinator is a
+   leaf or alternatives of leaves lies in the domain of the round-trip theorem, so IF it serializes,
+   the canonical text decodes to it again (that it does serialize is the part left to the search) *)
+Theorem de_reencodable_partial_grid : forall c1 s t h w p, 1 <= h -> 1 <= w -> flat c1 = true -> wf (Grid c1 None) = true ->
+  deserialize_problem (Grid c1 None) s h w = Ok (Some p) ->
+  serialize_problem (Grid c1 None) p h w = Ok t ->
+  deserialize_problem (Grid c1 None) t h w = Ok (Some p).
+Proof. exact grid_redecode_lemma. Qed.
+Print Assumptions de_reencodable_partial_grid.
+
+Theorem grid_codecs_redecode_partial : forall c,
+  In c [NURIKABE_COMBINATOR; MASYU_COMBINATOR; SLITHERLINK_COMBINATOR; SUDOKU_COMBINATOR; NURIMISAKI_COMBINATOR] ->
+  forall s t h w p, 1 <= h -> 1 <= w ->
+    deserialize_problem c s h w = Ok (Some p) -> serialize_problem c p h w = Ok t ->
+    deserialize_problem c t h w = Ok (Some p).
+Proof. exact grid_codecs_redecode_lemma. Qed.
+Print Assumptions grid_codecs_redecode_partial.
